@@ -30,6 +30,7 @@ class ReparseOracle(docexp.Oracle):
         return True
 
     def pre(self, root, op):
+        number_values(root)       # reads before the edit: a memoised value must not survive it
         return tree.glued_pairs(root.token_store)
 
     def post(self, root, op, ap, pre, res, case):
@@ -60,12 +61,31 @@ class ReparseOracle(docexp.Oracle):
         if a != b:
             res.fail(f'C06/reparsed-structure-differs[{sig}]', where + f'in-memory {diff(a, b)}')
             return
+        va, vb = number_values(root), number_values(again)
+        if va != vb:
+            k = next((i for i, (x, y) in enumerate(zip(va, vb)) if x != y), min(len(va), len(vb)))
+            res.fail(f'C06/number-value-differs-from-printed-text[{sig}]', where + f'number expression #{k}: the model says '
+                     f'{va[k] if k < len(va) else None}, the re-parsed text {vb[k] if k < len(vb) else None}')
+            return
         ca, cb = tree.comment_lines(root.token_store), tree.comment_lines(again.token_store)
         if ca != cb:
             res.fail(f'C06/comments-differ[{sig}]', where + f'comments in memory {ca} vs re-parsed {cb}')
 
 
 COL0_COMMENT_INSIDE_BLOCK = re.compile(r'(?m)^[ \t]+[^ \t\r\n][^\n]*\n(;[^\n]*\n)+[ \t]+[^ \t\r\n]')
+
+
+def number_values(root) -> list:
+    """(text, value or exception class) of every number expression node, in document order"""
+    out = []
+    for _, m in tree.walk(root):
+        if isinstance(m, (M.NumberExpr, M.NumberAddExpr, M.NumberMulExpr, M.NumberParenExpr, M.NumberUnaryExpr)):
+            try:
+                v = str(m.value)
+            except Exception as e:  # noqa
+                v = type(e).__name__
+            out.append((type(m).__name__, tree.pr(m), v))
+    return out
 
 
 def custom_ambiguity(root) -> bool:
